@@ -1172,6 +1172,33 @@ def _h4(ctx, m, ts, results, handles, props_of):
                         ctx.ob(props, 'RF3-H4i', f, site, 'callers (constructor only) / released at call sites')
                 else:
                     ctx.ob(props, 'RF3-H4i', f, site, 'handle %s in state %s' % (hp, ''.join(sorted(tags))))
+            # (iv) iff-form, other direction: the flag is set only while the handle is armed (a flag set after a FAILED
+            # create is never cleared: nothing will ever fire to clear it)
+            if inv['iff'] and inv['kind'] == 'bit-clear':
+                for (kind2, node, n, inv2, st) in res.obl:
+                    if inv2 is not inv or n.k != 'bin':
+                        continue
+                    v = const_eval(n.kids[1], env)
+                    sets = (n.op == '|=' and (v is None or (v & inv['mask']) != 0)) or (n.op == '=' and v is not None and (v & inv['mask']) != 0)
+                    if not sets:
+                        continue
+                    pc = res.canon.canon(node.id, strip(n.kids[0]))
+                    if pc is None or not pc[0].endswith(inv['suffix_from_pred'][0]):
+                        continue
+                    hp = pc[0][:-len(inv['suffix_from_pred'][0])] + inv['suffix_from_pred'][1]
+                    res.pathinfo.setdefault(hp, (pc[1], inv['handle']))
+                    tags = res.get(res.IN[node.id], hp) if res.IN.get(node.id) is not None else None
+                    site = '%s: %s' % (m.loc(f, node.line), show(n))
+                    if tags is None:
+                        continue
+                    if tags <= frozenset([A]):
+                        ctx.ob(props, 'RF3-H4iv', f, site, 'handle %s armed on every path to the store' % hp)
+                    else:
+                        ctx.ob(props, 'RF3-H4iv', f, site, None)
+                        ctx.find(props, 'RF3-H4iv', f, 'H4iv:%s' % inv['name'], m.loc(f, node.line),
+                                 'invariant %s: %s sets the flag although handle %s may not be armed (state %s: e.g. the create '
+                                 'failed): no action will ever fire to clear the flag again - the service stays blocked'
+                                 % (inv['name'], show(n), hp, ''.join(sorted(tags))))
             # (ii) arming sites falsify the predicate on the same path
             for (node, p, fld, kind, t, n) in res.stores:
                 if fld != inv['handle'] or kind != 'create':
